@@ -1961,6 +1961,28 @@ func contradictsContract(facts []Fact, f Fact) bool {
 			}
 		}
 	}
+	// contract of bufio.Reader.ReadLine: a fragment returned with isPrefix == true filled the buffer, so it is not empty; a
+	// slice that such a fragment was appended to is not nil
+	if f.Pos && f.T.Kind == "binop" && f.T.Name == "==" && len(f.T.Args) == 2 {
+		x, y := f.T.Args[0], f.T.Args[1]
+		if x.Kind == "nil" {
+			x, y = y, x
+		}
+		if y.Kind == "nil" && x.Kind == "append" {
+			for t := x; t != nil && t.Kind == "append" && len(t.Args) >= 2; t = t.Args[0] {
+				for _, el := range t.Args[1:] {
+					if el != nil && el.Kind == "call" && el.Name == "(*bufio.Reader).ReadLine" && el.Idx == 1 {
+						isPrefix := mk("call", el.Name, 2, types.Typ[types.Bool], el.Args...)
+						for _, g := range facts {
+							if g.Pos && g.T == isPrefix {
+								return true
+							}
+						}
+					}
+				}
+			}
+		}
+	}
 	if !f.Pos || f.T.Kind != "binop" || f.T.Name != "==" {
 		return false
 	}
